@@ -1048,3 +1048,54 @@ pub fn constcond_cases(sigil: Option<&'static str>) -> Vec<Case> {
     }
     out
 }
+
+// ---------------------------------------------------------------------------
+// LETPOS: a let / assign that is not the whole body of a function but sits in an argument, under a conditional, in
+// another binding's value or in a &rest tail; the function is a defun or an inline, called positionally or with a
+// &rest tail that supplies the parameters the nested let uses.
+
+pub fn let_position_cases(sigil: Option<&'static str>) -> Vec<Case> {
+    let mut out = vec![];
+    let params = Pat::list(vec![Pat::n("A"), Pat::n("B")]);
+    let args = vec![T::list(&[T::int(5), T::list(&[T::int(7), T::int(8), T::int(9)])]), T::list(&[T::list(&[T::int(1)]), T::list(&[T::int(2), T::list(&[T::int(3)])])])];
+    for inline in [false, true] {
+        for shape in ["proper", "dotted"] {
+            // F (X Y Z) or F (X Y . Z)
+            let fparams = if shape == "proper" { Pat::list(vec![Pat::n("X"), Pat::n("Y"), Pat::n("Z")]) } else { Pat::list_tail(vec![Pat::n("X"), Pat::n("Y")], Pat::n("Z")) };
+            for binder in ["let", "assign"] {
+                let bound = |body: E| -> E {
+                    if binder == "let" {
+                        E::Let(LetKind::Let, vec![("W".into(), E::prim("c", vec![E::v("X"), E::v("Y")]))], Box::new(body))
+                    } else {
+                        E::Assign(AssignKind::Plain, vec![(Pat::n("W"), E::prim("c", vec![E::v("X"), E::v("Y")]))], Box::new(body))
+                    }
+                };
+                let inner = bound(E::List(vec![E::v("W"), E::v("Y"), E::v("Z")]));
+                for pos in ["whole-body", "argument", "under-if", "binding-value", "rest-tail"] {
+                    let mut helpers = vec![];
+                    let body = match pos {
+                        "whole-body" => inner.clone(),
+                        "argument" => E::prim("c", vec![E::int(1), inner.clone()]),
+                        "under-if" => E::If(Box::new(E::v("X")), Box::new(inner.clone()), Box::new(E::v("Z"))),
+                        "binding-value" => E::Let(LetKind::Let, vec![("V".into(), inner.clone())], Box::new(E::List(vec![E::v("V"), E::v("Z")]))),
+                        _ => {
+                            helpers.push(Helper::Fun { name: "G".into(), inline: false, params: Pat::list_tail(vec![Pat::n("P")], Pat::n("Q")), body: E::List(vec![E::v("P"), E::v("Q")]) });
+                            E::Call("G".into(), vec![E::v("X")], Some(Box::new(inner.clone())))
+                        }
+                    };
+                    helpers.push(Helper::Fun { name: "F".into(), inline, params: fparams.clone(), body });
+                    for call in ["positional", "rest-supplies-last", "rest-supplies-two", "rest-supplies-all"] {
+                        let main = match call {
+                            "positional" => E::call("F", vec![E::v("A"), E::prim("f", vec![E::v("B")]), E::prim("r", vec![E::v("B")])]),
+                            "rest-supplies-last" => E::Call("F".into(), vec![E::v("A"), E::prim("f", vec![E::v("B")])], Some(Box::new(E::List(vec![E::prim("r", vec![E::v("B")])])))),
+                            "rest-supplies-two" => E::Call("F".into(), vec![E::v("A")], Some(Box::new(E::v("B")))),
+                            _ => E::Call("F".into(), vec![], Some(Box::new(E::prim("c", vec![E::v("A"), E::v("B")])))),
+                        };
+                        out.push(Case { prog: Prog { sigil, params: params.clone(), helpers: helpers.clone(), body: main }, args: args.clone(), tags: vec![format!("letpos/{}/{}", if inline { "inline" } else { "defun" }, pos), format!("{}-{}-{}", shape, binder, call)] });
+                    }
+                }
+            }
+        }
+    }
+    out
+}
